@@ -55,8 +55,17 @@ func NewUnpackInfo(dst string, header *tar.Header) (UnpackInfo, error) {
 	// immediate parent directory of the file name in the tarball, checking
 	// the mode on each to ensure we wouldn't be passing through any
 	// symlinks.
+	//
+	// The components walked are those of the cleaned path below dst, which is
+	// the path that will actually be created. Walking the name as written in
+	// the header would stop at the first component that does not exist yet
+	// and so skip the check for whatever follows a "missing/.." detour.
 	currentPath := dst // Start at the root of the unpacked tarball.
-	components := strings.Split(header.Name, "/")
+	rel, err := filepath.Rel(filepath.Clean(dst), target)
+	if err != nil {
+		return UnpackInfo{}, fmt.Errorf("failed to evaluate path %q: %w", header.Name, err)
+	}
+	components := strings.Split(rel, string(filepath.Separator))
 
 	for i := 0; i < len(components)-1; i++ {
 		currentPath = filepath.Join(currentPath, components[i])
